@@ -302,6 +302,31 @@ def _id_case(repo, it, S, spec):
             elif order1 != order2:
                 out.append(("query_by_feature_identifiers independent of the hash seed", f"query_by_feature_identifiers({list(args)}) lists the genes as {order1}, and as "
                             f"{order2} when the identifier set is iterated in the opposite order", f.qual))
+    if which == "identifiers":
+        # identifiers are not unique: a value shared by several members (paralogues with one symbol, a gene and a feature
+        # collection under one locus tag, a collection named like a gene's id) returns all of them
+        f = repo.fn(f"{AC}.query_by_feature_identifiers")
+        tx = lambda a, b, tid: mk_transcript(it, [(a, b)], S["PLUS"], transcript_id=tid)  # noqa: E731
+        gA = mk_gene(it, [tx(10, 40, "tA")], gene_id="gA", gene_symbol="dup", locus_tag="LT1")
+        gB = mk_gene(it, [tx(60, 90, "tB")], gene_id="gB", gene_symbol="dup", locus_tag="LT2")
+        gC = mk_gene(it, [tx(100, 130, "tC")], gene_id="gC", gene_symbol="solo")
+        fA = mk_feature_collection(it, [mk_feature(it, [(140, 150)], S["PLUS"], feature_name="x")], feature_collection_id="fcA", locus_tag="LT1")
+        fB = mk_feature_collection(it, [mk_feature(it, [(160, 170)], S["MINUS"], feature_name="y")], feature_collection_id="fcB", feature_collection_name="gC")
+        shared = mk_collection(it, [gA, gB, gC], [fA, fB], sequence_name="chr1")
+        for arg, want_ids in (("dup", ["gA", "gB"]), (["dup"], ["gA", "gB"]), ("LT1", ["fcA", "gA"]), ("gC", ["fcB", "gC"]),
+                              (["LT1", "solo"], ["fcA", "gA", "gC"]), (["dup", "LT2"], ["gA", "gB"]), ("LT2", ["gB"]), (["fcB", "gA"], ["fcB", "gA"])):
+            n += 1
+            k, v = run(it, f, [arg], {}, shared)
+            got = member_ids(v) if k == "ok" else v
+            if k != "ok" or got != want_ids:
+                out.append(("query_by_feature_identifiers (identifier shared by several members)", f"query_by_feature_identifiers({arg!r}) -> {k}:{got}; "
+                            f"every member carrying the identifier: {want_ids}", f.qual))
+            elif k == "ok":
+                # asked again of the result (nested query): the same members
+                k2, v2 = run(it, f, [arg], {}, v)
+                if k2 != "ok" or member_ids(v2) != want_ids:
+                    out.append(("query_by_feature_identifiers (identifier shared by several members)", f"query_by_feature_identifiers({arg!r}) asked again of "
+                                f"its own result -> {k2}:{member_ids(v2) if k2 == 'ok' else v2}; expected {want_ids}", f.qual))
     if which == "children":
         # the three kinds of children by name (any case), anything else refused; a variant collection narrowed to some of its
         # variants keeps exactly those, in position order, under its own identity
